@@ -23,10 +23,15 @@ META['C15'] = {'engine': 'loadeng', 'level_text': "rapid campaigns over generate
 META['C16'] = {'engine': 'loadeng', 'level_text': "rapid campaigns over generated templated configurations: determinism across repeated loads, defaults, per-replica reference rendering; exploration", 'level_note': LOAD_NOTE, 'technique': "property-based testing (rapid): determinism + differential against reference rendering"}
 META['C17'] = {'engine': 'loadeng', 'level_text': "rapid campaigns: reference expander on loaded values under a controlled environment, and a precedence model on the environment handed to the commander; exploration", 'level_note': LOAD_NOTE + "; launch part uses the fake commander seam to read the exact environment", 'technique': "property-based testing (rapid): differential against a reference expander / precedence model"}
 
+META['C11'] = {'engine': 'lifecycle', 'level_text': "rapid campaigns over output scripts (line counts, lengths, stream mix, missing final newline, bursts, restarts, logger configurations) compared line by line with the in-memory log and the log file; exploration", 'level_note': LIFE_NOTE, 'technique': "property-based testing (rapid): scripted output vs. captured log, exact comparison"}
+META['C13'] = {'engine': 'lifecycle', 'level_text': "rapid campaigns over sequences of scale requests, differential against a fresh load with the same replica count plus ground truth of launches/stops per replica; exploration", 'level_note': LIFE_NOTE, 'technique': "property-based testing (rapid): request sequences, differential against a fresh load + ground-truth events"}
+
+META['C14'] = {'engine': 'lifecycle', 'level_text': "rapid campaigns over pairs and sequences (P, P') of generated configurations, reference classification + ground truth of which instances were kept, terminated and launched with what; exploration", 'level_note': LIFE_NOTE, 'technique': "property-based testing (rapid): generated configuration pairs, reference classification + ground-truth events"}
+
 NOT_APPLICABLE = {}
 
 ENGINES = [
-    {"name": "lifecycle", "path": "harness/lifecycle", "serves_properties": ['C01', 'C02', 'C03', 'C04', 'C05', 'C08', 'C09', 'C12'],
+    {"name": "lifecycle", "path": "harness/lifecycle", "serves_properties": ['C01', 'C02', 'C03', 'C04', 'C05', 'C08', 'C09', 'C11', 'C12', 'C13', 'C14'],
      "kind_free_text": "rapid stateful generation driving app.ProjectRunner through a fake commander (build tag verif); trace oracles in harness/oracle"},
     {"name": "logbuf", "path": "harness/logbuf", "serves_properties": ['C18'],
      "kind_free_text": "rapid + exhaustive enumeration over pclog.ProcessLogBuffer and the websocket log stream"},
